@@ -49,6 +49,7 @@ func genC08(g *h.G) {
 	gc.genTL()
 	gc.genHelpers()
 	gc.genTLB()
+	gc.genTLBModel()
 	for k := range gc.noSeed {
 		g.Count("no_valid_seed:" + k)
 	}
